@@ -73,9 +73,9 @@ m = {
  'setup_cmd': 'python3 tools/setup.py',
  'hooks': {
   'guard': 'versatiles_verif',
-  'enable': 'no source hook is needed: checks extract function text from /repo\'s working tree on every run; the replay crate uses only public API of the real crates',
+  'enable': 'the proofs need no hook (function text is extracted from /repo\'s working tree on every run). The counterexample-replay crate /verif/replay builds the real crates with RUSTFLAGS --cfg versatiles_verif (set in /verif/replay/.cargo/config.toml), which enables the guarded re-exports verif_hooks_pmtiles / verif_hooks_versatiles in versatiles_container/src/container/{pmtiles,versatiles}/mod.rs (plus an unexpected_cfgs lint entry in versatiles_container/Cargo.toml)',
   'baseline_off_cmd': 'python3 /verif/tools/baseline_check.py /repo',
-  'source_commits': [],
+  'source_commits': ['35fee977e1c5d65f61c93069740524f935915cb3'],
   'add_only': True,
  },
  'engines': [
